@@ -77,10 +77,16 @@ def observe(probe, files, how):
     return obs, obs
 
 
-def summarise(r, files, blocks, decl_texts, planted):
+def summarise(r, files, blocks, decl_texts, planted, label_set=False):
     ok = bool(r.get("ok"))
     if planted is None:
         return (ok,)
+    if label_set:
+        # a fault of two declarations (the same name twice): which of the two is 'the duplicate' and which 'the first' is
+        # a matter of order by nature; that both are pointed at, and where, is not
+        locs = sorted((d["code"], tuple(sorted(locate(lab, files, blocks, decl_texts)[:2] for lab in [d["primary"]] + list(d["secondary"]))))
+                      for d in r.get("diags", []) if d["code"] == planted)
+        return (ok, tuple(locs))
     locs = sorted((d["code"],) + locate(d["primary"], files, blocks, decl_texts) for d in r.get("diags", [])
                   if d["code"] == planted)
     return (ok, tuple(locs))
@@ -139,7 +145,7 @@ def variants(n, rng, budget):
     return out, exhaustive
 
 
-def run_unit(probe, res, decls, planted, tag, rng, budget, bad_kinds, presence_only=False):
+def run_unit(probe, res, decls, planted, tag, rng, budget, bad_kinds, presence_only=False, label_set=False):
     canonical_texts = [vgen.render_decl(d) for d in decls]
     headers = [""] * len(decls)
     if rng.random() < 0.2:
@@ -188,8 +194,10 @@ def run_unit(probe, res, decls, planted, tag, rng, budget, bad_kinds, presence_o
                 # the reference variant itself is answered 'not implemented': outside the property
                 res.unsupported += 1
                 return
-            s = summarise(r, files, blocks, decl_texts, planted)
-            if presence_only and planted is not None:
+            s = summarise(r, files, blocks, decl_texts, planted, label_set)
+            if label_set:
+                pass
+            elif presence_only and planted is not None:
                 s = (s[0], bool(s[1]))
             elif planted is not None:
                 s = (s[0], tuple((c, di, off, sp.lower()) for c, di, off, sp in s[1]))
@@ -271,7 +279,15 @@ def shard(shard_i, nshards, payload):
                 m = list(decls) if len(decls) <= 6 and rng.random() < 0.5 else list(decls[:3])
                 m.insert(rng.randrange(len(m) + 1), extra[0])
                 m.insert(rng.randrange(len(m) + 1), extra[1])
-                run_unit(probe, res, m, code, tag, rng, max(60, payload["budget"] // 4), (), presence_only=True)
+                # the cycle is named at the same member whatever the order (since 10e320c); of two same-named declarations
+                # both are pointed at (which is called the duplicate depends on the order by nature); two identical texts
+                # cannot be told apart by position inside the declaration, only presence is compared there
+                if tag == "fault:cycle":
+                    run_unit(probe, res, m, code, tag, rng, max(60, payload["budget"] // 4), ())
+                elif tag in ("fault:duplicate", "fault:duplicate-one-copy-faulty"):
+                    run_unit(probe, res, m, code, tag, rng, max(60, payload["budget"] // 4), (), label_set=True)
+                else:
+                    run_unit(probe, res, m, code, tag, rng, max(60, payload["budget"] // 4), (), presence_only=True)
             seen = set()
             for code, site, mutant in faults:
                 key = (code, site == "missing-external")
